@@ -116,6 +116,12 @@ def r1_forms(ctx, chk, rule="C14.1"):
     where = k.func.where()
     _judge(chk, rule, where, "Player 2 'probability under min reward' (slot 2)", arg_successor(k, slots[2], ERM, "min"), show(slots[2]))
     t = slots[1]
+    if any(x[0] == "v" and isinstance(x[1], str) and x[1].startswith("__ctx_") for x in C02._sub(t)):
+        # the method is called in several contexts (with the action set handed in / computed on the spot): fold the alternatives
+        from ..symx import deep_simp, path_simp
+        t = path_simp(deep_simp(t))
+        if t[0] == "ite" and t[1][0] == "ite" and t[1][2][0] == "truthy" and t[1][3][0] == "truthy":
+            t = ("ite", ("truthy", ("ite", t[1][1], t[1][2][1], t[1][3][1])), t[2], t[3])
     if not (t[0] == "ite" and t[1][0] == "truthy" and t[3] == C(0)):
         if t[0] == "ite" and t[1][0] == "truthy":
             chk.violation(rule, where, "Player 2 slot 1 is `%s` when no reachability-minimising action exists; specification: 0" % show(t[3]),
@@ -144,6 +150,24 @@ def r1_forms(ctx, chk, rule="C14.1"):
                        term=K.ROUND(SF(REACH), C(d)), init_ok=K.INIT_GE1, label=("p",), found_text=show(W))
     km = k.kfold(x)
     want_filter = simp(("cmp", "in", ("p",), W))
+    if km is not None and any(y[0] == "v" and isinstance(y[1], str) and y[1].startswith("__ctx_") for y in C02._sub(km.filter) + C02._sub(want_filter)):
+        # the action set as seen in the different call contexts of the method: where it is the same fold in each of them, it is that fold
+        from ..symx import deep_simp, path_simp, subst
+
+        def collapse(t_):
+            t_ = path_simp(deep_simp(t_))
+
+            def g(y):
+                if y[0] == "ite" and len(y) == 4:
+                    ka, kb = k.kfold(y[2]), k.kfold(y[3])
+                    if ka is not None and kb is not None and ka.kind == kb.kind and ka.text() == kb.text():
+                        return y[2]
+                return None
+            return subst(t_, g)
+        km.filter = collapse(km.filter)
+        want_filter = collapse(want_filter)
+        if getattr(km, "first_filter", None) is not None:
+            km.first_filter = collapse(km.first_filter)
     if km is None and x[0] == "attr" and x[2] == EMR and x[1][0] == "idx" and x[1][1] == ("v", k.slist) \
             and any(t[0] == "idx" and t[2] == C(0) and t[1][0] in ("compr", "attr") for t in C02._sub(x[1][2])):
         chk.violation(rule, where, "Player 2 slot 1 is the value at the FIRST permitted successor (`%s`): no minimum over the permitted actions is taken" % show(x),
